@@ -30,6 +30,8 @@ REFS = {
         'def support(samples, weights, tol=0):\n    return [samples[i] for i, w in enumerate(weights) if w > tol]\n',
     'mystic.math.measures:expectation':
         'def expectation(f, samples, weights=None, tol=0.0):\n    if weights is None:\n        y = [f(x) for x in samples]\n        return mean(y, weights)\n    from numpy import sum\n    if not sum((abs(w) > tol for w in weights)):\n        yw = ((0.0, 0.0),)\n    else:\n        yw = [(f(x), w) for x, w in zip(samples, weights) if abs(w) > tol]\n    return mean(*zip(*yw))\n',
+    'mystic.math.measures:_expected_moment':
+        'def _expected_moment(f, samples, weights=None, order=1, tol=0.0):\n    if order < 0:\n        raise NotImplementedError\n    if weights is None:\n        y = [f(x) for x in samples]\n        return moment(y, weights, order)\n    from numpy import sum\n    if not sum([abs(w) > tol for w in weights]):\n        yw = ((0.0, 0.0),)\n    else:\n        yw = [(f(x), w) for x, w in zip(samples, weights) if abs(w) > tol]\n    return moment(*zip(*yw), order=order)\n',
     'mystic.math.measures:expected_variance':
         'def expected_variance(f, samples, weights=None, tol=0.0):\n    return _expected_moment(f, samples, weights, order=2, tol=tol)\n',
     'mystic.math.measures:ess_maximum':
